@@ -165,7 +165,7 @@ def run(repo: Repo, rep: Report, tier: str) -> None:
     # ---- completion marker: borrowed from C15's fragment rules -------------------
     rep.rule("completion-marker", "each part that is sent ends with exactly one fragment marked last, and the fragment count is ceil(length / payload): otherwise the receiver never completes the message")
     from . import c15
-    c15.run(repo, rep, tier, only_completion=True, names={"overhead-count": "completion-marker", "order-flags": "completion-marker", "one-pdv": "completion-marker"})
+    c15.run(repo, rep, tier, only_completion=True, names={"overhead-count": "completion-marker", "overhead": "completion-marker", "order-flags": "completion-marker", "one-pdv": "completion-marker"})
 
     # ---- single writer / single caller -----------------------------------------
     n_w = 0
